@@ -61,7 +61,8 @@ def op_strategy(draw, k):
     elif f in ("latter_map_to_accessor", "remove_useless"):
         op.update(threshold=draw(st.sampled_from([None, 1, 2] if f == "latter_map_to_accessor" else [1, 2, 3])))
     elif f == "obtain_leaf_vertices":
-        op.update(depth=draw(st.integers(0, 3)), via_map=draw(st.booleans()))
+        op.update(depth=draw(st.integers(0, 3)), via_map=draw(st.booleans()),
+                  vertex=draw(st.sampled_from([None, None, draw(st.integers(0, 4 ** k - 1))])))
     elif f == "filter_valid":
         op.update(only_last=draw(st.booleans()))
     elif f == "connect_coding_graph":
@@ -86,6 +87,15 @@ def op_strategy(draw, k):
 def histories(draw, tier):
     graph = draw(gens.coding_graphs(1, 3, weights={1: 1, 2: 3, 3: 2}))
     k = graph["k"]
+    dead = [v for v, r in enumerate(graph["rows"]) if not r]
+    if dead and draw(st.booleans()):
+        # vertices outside the coding graph (no arc leads to them, so the walks from the start vertex never see
+        # them) that keep arcs of their own, also arcs into vertices WITHOUT follow-up vertices: the shared graph is
+        # then an untrimmed one, as connect_valid_graph or a hand-written latter map describes it
+        rows = list(graph["rows"])
+        for _ in range(draw(st.integers(1, 3))):
+            rows[dead[draw(st.integers(0, len(dead) - 1))]] = draw(st.integers(1, 15))
+        graph = dict(graph, rows=rows, untrimmed=True)
     bits = draw(gens.messages(40 if draw(st.integers(0, 5)) else 320, min_len=1))
     table = draw(gens.tables(k, allow_none=False))
     strand, _ = o.ref_encode([int(c) for c in bits], graph["rows"], k, graph["start"])
@@ -101,7 +111,7 @@ def histories(draw, tier):
             "filter": draw(gens.local_filter_cfgs(k, decidable=True)) if draw(st.sampled_from([True] * 5 + [False]))
             else {"k": k, "run": None, "gc": None, "motifs": None},
             "map_order": draw(st.sampled_from([None, 1, 2, 3])),
-            "layout": draw(st.sampled_from([None, None, None, "F", "strided", "int32"])),
+            "layout": draw(st.sampled_from([None, None, None, "F", "strided", "int32", "readonly"])),
             "motifs": draw(st.lists(st.text(alphabet="ACGT", min_size=1, max_size=3), min_size=1, max_size=3)),
             "strand": strand, "corrupted": corrupted,
             "number": str(draw(st.integers(10, 10 ** 30)))}
@@ -151,7 +161,8 @@ def evaluate(case):
     base = snapshot(bundle)
     recorded = []
     names = [op["f"] for op in ops]
-    labels = ["ops:%s" % ("4-7" if len(ops) < 8 else "8-14"), "k=%d" % desc["graph"]["k"]]
+    labels = ["ops:%s" % ("4-7" if len(ops) < 8 else "8-14"), "k=%d" % desc["graph"]["k"]] + (
+        ["untrimmed_graph"] if desc["graph"].get("untrimmed") else [])
     for index, op in enumerate(ops):
         result, raw, _ = history.execute(op, bundle)
         now = snapshot(bundle)
@@ -211,7 +222,7 @@ def short(value):
 
 SUBCHECKS = [
     SubCheck("call_histories", evaluate, strategy=histories, examples=(400, 5000), shards=(16, 16),
-             floors={"fresh_interpreter": 15, "verbose_twin": 300, "f:connect_coding_graph": 80, "f:encode": 80,
+             floors={"fresh_interpreter": 15, "untrimmed_graph": 90, "verbose_twin": 300, "f:connect_coding_graph": 80, "f:encode": 80,
                      "f:get_complete_accessor": 60, "f:complete_then_trim": 30, "f:repair_dna": 30}, rule=RULE,
              timeout=300.0),
 ]
